@@ -379,6 +379,9 @@ impl Grammar for CoreGrammar {
                 out.push(Self::atom(Sx::Bool(true)));
                 out.push(Self::atom(Sx::Bool(false)));
                 out.push(Self::form("null?", vec![(LIST, env)], "builtin"));
+                // null? of something that is not a list at all
+                out.push(Self::form("null?", vec![(INT, env)], "builtin"));
+                out.push(Self::form("null?", vec![(FUN0, env)], "builtin"));
                 out.extend(self.tick(BOOL, env));
             }
             TEST => {
